@@ -177,6 +177,7 @@ def one_case(ctx: Ctx, stream: str, i: int, steps: int) -> None:
                          f'{type(res).__name__}', {**desc, 'expr': sx(req)[:2000]})
         else:
             real = enc.op(res)
+            ctx.in_domain(stream, i, real, {**desc, 'expr': sx(req)[:2000]})
             d = first_diff(reply[1], real)
             if d is not None:
                 ctx.disagree(stream, i, f'{op}: result differs at {d[0]}: model {d[1]!r:.150} impl {d[2]!r:.150}',
